@@ -67,6 +67,9 @@ type Case struct {
 	// not affected): "" nothing, otherwise a comment line (# ...) or an empty / blank line. Noise[len(Lines)]
 	// follows the last line.
 	Noise []string `json:",omitempty"`
+	// NoFinalNewline: the program text handed to Arch.Assembler does not end in a newline (a file saved by
+	// an editor that does not add one): the last instruction counts all the same
+	NoFinalNewline bool `json:",omitempty"`
 }
 
 // ---------------------------------------------------------------------------
